@@ -253,3 +253,29 @@ def r_nsdmi(text, classname, expect=None):
         raise SliceError(f"R-NSDMI({classname}): class already has a default constructor")
     ctor = f"public: {classname}() : " + ', '.join(f"{n}({v})" for n, v in inits) + " {}   // generated by R-NSDMI\n"
     return text[:ob + 1] + '\n'.join(out) + ctor + text[ce - 1:]
+
+def replace_block_body(text, anchor, new_body, expect=1):
+    """replace the brace-enclosed body of the statement starting at `anchor` (an `if (...) {` line) by `new_body`"""
+    ms = list(re.finditer(anchor, text, re.M))
+    if len(ms) != expect:
+        raise SliceError(f"replace_block_body: anchor {anchor!r}: expected {expect} match(es), got {len(ms)}")
+    m = ms[0]
+    ob = text.index('{', m.end() - 1)
+    ce = _scan(text, ob)
+    return text[:ob + 1] + ' ' + new_body + ' ' + text[ce - 1:]
+
+
+# ---- lint: CBMC's C++ front end gives `c ? a : b` the type of its LAST operand.  A conditional expression in sliced code whose
+# last operand is visibly narrower than the middle one (integer / bool literal or comparison against a call, cast or wider
+# expression) would be mis-compiled: the unit is refused (exit 2) until the expression gets an R-TERN rewrite.
+def lint_ternaries(text, what):
+    code = re.sub(r'//[^\n]*', '', text)
+    code = re.sub(r'"(?:[^"\\\n]|\\.)*"', '""', code)
+    bad = []
+    for m in re.finditer(r'\?([^?:;{}]*):\s*((?:0x[0-9a-fA-F]+|\d+|true|false|\([^()]*[=!<>]=?[^()]*\)))\s*[;),]', code):
+        mid = m.group(1).strip(); last = m.group(2).strip()
+        if re.fullmatch(r'(0x[0-9a-fA-F]+|\d+|true|false|\'[^\']*\'|"[^"]*")', mid):   # literal vs literal: same rank in practice
+            continue
+        bad.append((mid + ' : ' + last)[:80])
+    if bad:
+        raise SliceError(f"lint_ternaries({what}): conditional expression(s) whose last operand is narrower than the middle one: {bad[:3]}")
